@@ -1,4 +1,5 @@
 mod common;
+mod c13;
 mod c15;
 mod c05;
 mod c16;
@@ -19,6 +20,7 @@ fn main() {
         "C16" => c16::run(&args),
         "C05" => c05::run(&args),
         "C15" => c15::run(&args),
+        "C13" => c13::run(&args),
         x => {
             eprintln!("unknown property {}", x);
             std::process::exit(2);
